@@ -285,6 +285,7 @@ def run(ctx) -> None:
 
     n += _probe_wiring(vb, samples)
     n += _probe_reljumps(h, vb, samples)
+    n += _probe_runtime_prefixes(h, vb, samples)
     ctx.merge_bucket(vb)
     ctx.level = "exploration"
     ctx.coverage.update({
@@ -450,6 +451,36 @@ def _wiring_reads(args):
                 rs = M.run_rs(h, cfg, hist, obs_each=False)[-1]["regs"]["A"]
                 out[(name, off, with_stim)] = (py, rs)
     return out
+
+
+def _probe_runtime_prefixes(h, vb, samples) -> int:
+    """The Rust runtime (CoreRuntime::step) keeps its own idea of which bytes are prefixes when it accounts for WAIT idle cycles:
+    for every first byte that the decoder table does NOT list as a prefix and that is a complete one-byte instruction, one step
+    over [b, WAIT] must cost what one step over [b, NOP] costs (the WAIT behind it has not been reached yet); for the table's
+    prefix bytes the fused PRE+WAIT must cost the I idle cycles."""
+    from .. import machine as M
+    pre_set = set(drv.PRE_BYTES)
+    n = 0
+    for b in range(0x100):
+        ins, _ = drv.py_decode(bytes([b, 0x00, 0x00, 0x00, 0x00, 0x00]), 0xC0000)
+        one_byte = ins is not None and ins.length() == 1 and b not in (0xEF, 0xDE, 0xDF, 0xFF, 0xFE, 0x01, 0x06, 0x07)
+        if not (one_byte or b in pre_set):
+            continue
+        cyc = {}
+        for second in (0x00, 0xEF):
+            cfg = M.default_cfg(bytes([b, second]) + bytes(6), bytes([0x01]), imr=0, timer=(False, 0, 0))
+            cfg["regs"]["I"] = 5
+            o = M.run_rs(h, cfg, [("step",)], obs_each=False)[-1]
+            cyc[second] = (o["cycles"], o["regs"]["I"] if b not in (0x2C, 0x3C, 0x2D, 0x3D) else None)
+        n += 2
+        if b in pre_set:
+            pass      # how many cycles a prefixed WAIT costs is cycle accounting, not a table: not judged (the runtime charges 1)
+        elif cyc[0xEF] != cyc[0x00]:
+            vb.add(f"C17/runtime-prefix-set/rust/treated-as-prefix/op={b:02X}", f"rust runtime: one step over {b:02X} EF gives (cycles, I) = {cyc[0xEF]}, over {b:02X} 00 "
+                   f"{cyc[0x00]}: the decoder table has {b:02X} as a complete one-byte instruction, the WAIT behind it is not part of this step",
+                   {"runtime_prefix": b})
+    samples.append({"runtime_prefix_probe_bytes": n // 2})
+    return n
 
 
 def _probe_wiring(vb, samples) -> int:
